@@ -8,29 +8,29 @@ Local Open Scope Z_scope.
 Lemma list_eqb_refl : forall a, list_eqb a a = true.
 Proof. induction a; simpl; auto. rewrite Z.eqb_refl. auto. Qed.
 
-Lemma non_mangled_unchanged : forall fuel s, mangled_form s = false -> demangle_fuel fuel s = Str s.
-Proof. intros fuel s H. unfold demangle_fuel. rewrite H. reflexivity. Qed.
+Lemma non_mangled_unchanged : forall fixed fuel s, mangled_form s = false -> demangle_fuel fixed fuel s = Str s.
+Proof. intros fixed fuel s H. unfold demangle_fuel. rewrite H. reflexivity. Qed.
 
 (* the parse of s succeeded and left the state st *)
-Definition parsed (fuel : nat) (s : list Z) (st : state) : Prop :=
+Definition parsed (fixed : bool) (fuel : nat) (s : list Z) (st : state) : Prop :=
   let base := if prefix_of prefix_str s then 15 else 0 in
   let l := Z.of_nat (List.length s) - base in
   mangled_form s = true /\
-  exists v st1, run s base fuel FEncoding (st0 l) = R v st1 /\ 0 <= v /\ level st1 = 0 /\
+  exists v st1, run fixed s base fuel FEncoding (st0 l) = R v st1 /\ 0 <= v /\ level st1 = 0 /\
     ((pos st1 >= len st1 /\ st = st1) \/
-     (pos st1 < len st1 /\ type_info st1 = true /\ exists v2, run s base fuel FName st1 = R v2 st /\ 0 <= v2)).
+     (pos st1 < len st1 /\ type_info st1 = true /\ exists v2, run fixed s base fuel FName st1 = R v2 st /\ 0 <= v2)).
 
-Lemma fallback_or_parsed : forall fuel s,
-  demangle_fuel fuel s = Str s \/
-  (exists k, demangle_fuel fuel s = Crash k) \/
-  demangle_fuel fuel s = Hang \/
-  exists st, parsed fuel s st /\ demangle_fuel fuel s = finish (prefix_of prefix_str s) st.
+Lemma fallback_or_parsed : forall fixed fuel s,
+  demangle_fuel fixed fuel s = Str s \/
+  (exists k, demangle_fuel fixed fuel s = Crash k) \/
+  demangle_fuel fixed fuel s = Hang \/
+  exists st, parsed fixed fuel s st /\ demangle_fuel fixed fuel s = finish fixed s (prefix_of prefix_str s) st.
 Proof.
-  intros fuel s. unfold demangle_fuel, parsed.
+  intros fixed fuel s. unfold demangle_fuel, parsed.
   destruct (mangled_form s) eqn:Hm; cbn [negb]; [| left; reflexivity ].
   set (base := if prefix_of prefix_str s then 15 else 0).
   set (l := Z.of_nat (List.length s) - base).
-  destruct (run s base fuel FEncoding (st0 l)) as [v st1 | k | ] eqn:Hr; cbn [of_res].
+  destruct (run fixed s base fuel FEncoding (st0 l)) as [v st1 | k | ] eqn:Hr; cbn [of_res].
   - destruct (v <? 0) eqn:Hv; cbn [orb]; [ left; reflexivity |].
     destruct (level st1 =? 0) eqn:Hl; cbn [negb]; [| left; reflexivity ].
     apply Z.ltb_ge in Hv. apply Z.eqb_eq in Hl.
@@ -38,7 +38,7 @@ Proof.
     + right; right; right. exists st1. split; [| reflexivity ].
       split; [ reflexivity |]. exists v, st1. repeat split; auto. left. split; [ lia | reflexivity ].
     + destruct (type_info st1) eqn:Hti; cbn [negb]; [| left; reflexivity ].
-      destruct (run s base fuel FName st1) as [v2 st2 | k | ] eqn:Hr2; cbn [of_res].
+      destruct (run fixed s base fuel FName st1) as [v2 st2 | k | ] eqn:Hr2; cbn [of_res].
       * destruct (v2 <? 0) eqn:Hv2; [ left; reflexivity |].
         apply Z.ltb_ge in Hv2.
         right; right; right. exists st2. split; [| reflexivity ].
@@ -51,19 +51,20 @@ Proof.
 Qed.
 
 (* a result that is not itself of mangled form is a fixed point, for every fuel *)
-Lemma idempotent_plain : forall fuel fuel' s t,
-  demangle_fuel fuel s = Str t -> mangled_form t = false -> demangle_fuel fuel' t = Str t.
+Lemma idempotent_plain : forall fixed fixed' fuel fuel' s t,
+  demangle_fuel fixed fuel s = Str t -> mangled_form t = false -> demangle_fuel fixed' fuel' t = Str t.
 Proof. intros. apply non_mangled_unchanged. assumption. Qed.
 
 (* the executable checker used on implementation outputs accepts whatever string the model returns *)
-Lemma checker_accepts_model : forall fuel s r, demangle_fuel fuel s = Str r -> ok_total s (IStr r) = true.
+Lemma checker_accepts_model : forall fixed fuel s r, demangle_fuel fixed fuel s = Str r -> ok_total s (IStr r) = true.
 Proof.
-  intros fuel s r H. unfold ok_total. destruct (mangled_form s) eqn:Hm; [ reflexivity |].
-  rewrite (non_mangled_unchanged fuel s Hm) in H. inversion H. apply list_eqb_refl.
+  intros fixed fuel s r H. unfold ok_total. destruct (mangled_form s) eqn:Hm; [ reflexivity |].
+  rewrite (non_mangled_unchanged fixed fuel s Hm) in H. inversion H. apply list_eqb_refl.
 Qed.
 
 (* ================================================================ the cursor invariant *)
 Section Inv.
+Variable fixed : bool.
 Variable full : list Z.
 Variable base : Z.
 Hypothesis base_ok : 0 <= base <= flen full.
@@ -274,19 +275,19 @@ Proof.
   - intros st H. exact I.
   - pres_auto; try apply IH.
 Qed.
-Lemma pres_dollar_loop : forall k p dollar e, pres (dollar_loop full base k p dollar e).
+Lemma pres_dollar_loop : forall k p dollar e, pres (dollar_loop fixed full base k p dollar e).
 Proof.
   induction k as [| k IH]; intros p dollar e; simpl.
   - intros st H. exact I.
   - pres_auto; try apply pres_dots_loop; try apply IH.
 Qed.
-Lemma pres_dd_source_name : pres (dd_source_name full base).
+Lemma pres_dd_source_name : pres (dd_source_name fixed full base).
 Proof. unfold dd_source_name. pres_auto; try apply pres_dollar_loop. Qed.
 Hint Resolve pres_dd_call_offset pres_dd_qualifier pres_dd_source_name : pres.
-Lemma pres_dd_abi_tag : pres (dd_abi_tag full base).
+Lemma pres_dd_abi_tag : pres (dd_abi_tag fixed full base).
 Proof. unfold dd_abi_tag. pres_auto. Qed.
 Hint Resolve pres_dd_abi_tag : pres.
-Lemma pres_dd_substitution : pres (dd_substitution full base).
+Lemma pres_dd_substitution : pres (dd_substitution fixed full base).
 Proof. unfold dd_substitution. pres_auto. Qed.
 Lemma pres_dd_function_param : pres (dd_function_param full base).
 Proof. unfold dd_function_param. pres_auto. Qed.
@@ -302,7 +303,7 @@ Variable rec : fn -> M.
 Hypothesis Hrec : forall f, pres (rec f).
 Hint Resolve Hrec : pres.
 
-Lemma pres_body : forall f, pres (body full base rec f).
+Lemma pres_body : forall f, pres (body fixed full base rec f).
 Proof.
   destruct f; simpl;
     [ unfold dd_encoding | unfold dd_name | unfold dd_local_name | unfold dd_nested_name
@@ -317,11 +318,11 @@ Proof.
     pres_auto.
   (* leftovers: state-level steps written in direct style *)
   all: try (intros st [Hp Hl]; split; simpl; auto; lia).
-  all: try (intros st H; destruct (out st); [ exact H | exact I ]).
+  all: try (intros st H; destruct (out st); [ exact H | destruct fixed; [ exact H | exact I ] ]).
 Qed.
 End Rec.
 
-Theorem run_pres : forall fuel f, pres (run full base fuel f).
+Theorem run_pres : forall fuel f, pres (run fixed full base fuel f).
 Proof.
   induction fuel as [| k IH]; intros f; simpl.
   - intros st H. exact I.
@@ -350,7 +351,7 @@ Lemma inv_st0 : inv (st0 slen).
 Proof. unfold inv, st0; simpl. unfold Model.slen. lia. Qed.
 
 Theorem cursor_upper_bound : forall fuel f v st',
-  run full base fuel f (st0 slen) = R v st' -> pos st' <= slen /\ len st' <= slen.
+  run fixed full base fuel f (st0 slen) = R v st' -> pos st' <= slen /\ len st' <= slen.
 Proof.
   intros fuel f v st' H. pose proof (run_pres fuel f (st0 slen) inv_st0) as P. rewrite H in P. exact P.
 Qed.
